@@ -896,17 +896,33 @@ def run(ck):
                 break
     stats["pairs_compared"] = npairs
     disagreements, nontrivial = 0, 0
+    shrunk = set()
+
+    def minimal(res, key, pred):
+        """the program of the FIRST report of a key is reduced (operation removal, same key must still be reported) so that the replay is small;
+        pair reports (known base vs relocated later) involve two programs and are left as they are"""
+        if key in shrunk or len(shrunk) >= 4 or key.startswith("C04/known-base-disagrees") or ck.match_finding(key) or any(v["key"] == key for v in ck.violations):
+            return res["prog"], None
+        shrunk.add(key)
+        return c03.shrink_program(ck, impl, model, res["prog"], pred, runner=check_programs), len(res["prog"])
+
     for res in results:
         if any(l.startswith(("R calli", "R jmpi", "R jcci", "R bi", "R bli", "R bcondi", "R adr", "EL", "ED", "R mov", "R lea", "R abs")) for l in res["prog"]):
             nontrivial += 1
         for (key, what) in res["problems"]:
-            ck.violation(key, what, {"program": res["prog"], "arch": res["prog"][0].split()[1]})
+            prog, orig = minimal(res, key, lambda r, key=key: any(k == key for k, _ in r["problems"]))
+            inp = {"program": prog, "arch": res["prog"][0].split()[1]}
+            if orig is not None:
+                inp["reduced_from_operations"] = orig
+            ck.violation(key, what, inp)
         if res["diffs"]:
             disagreements += 1
             if not [p for p in res["problems"] if not ck.match_finding(p[0])]:
+                prog, orig = minimal(res, "C04/correspondence", lambda r: bool(r["diffs"]) and not [p for p in r["problems"] if not ck.match_finding(p[0])])
                 ck.violation("C04/correspondence", "implementation and proven model disagree (%s); the reference evaluator found no wrong target in this program"
                              % "; ".join(res["diffs"][:3]),
-                             {"program": res["prog"], "broken": "correspondence of Reloc model (coq/theories/Reloc) with /repo", "diffs": res["diffs"][:5]}, no_input=True)
+                             {"program": prog, "reduced_from_operations": orig, "broken": "correspondence of Reloc model (coq/theories/Reloc) with /repo",
+                              "diffs": res["diffs"][:5]}, no_input=True)
     for o in ck.proof_failures():
         ck.violation("C04/proof/" + o["name"], "theorem %s no longer checks (%s)" % (o["name"], getattr(ck, "coq_log", "")[-800:]),
                      {"broken": "theorem " + o["name"], "file": "coq/theories/Properties/Properties_C04.v"}, no_input=True)
